@@ -461,3 +461,39 @@ def parse_sig_text(text):
     if a.kwarg:
         res.append((a.kwarg.arg, "vk", None))
     return res
+
+
+# ---------------------------------------------------------------------------------------------
+# record validation: the real compiler front end up to (and including) EmbedSignature, no code generation.
+# argv: .pyx path, JSON of directives, output JSON ({function name: docstring after EmbedSignature})
+FRONTEND = r'''
+import sys, json
+import Cython
+assert Cython.__file__.endswith(".py"), Cython.__file__
+from Cython.Compiler import Pipeline, Main
+from Cython.Compiler.AutoDocTransforms import EmbedSignature
+from Cython.Compiler.Visitor import TreeVisitor
+path, directives, outf = sys.argv[1], json.loads(sys.argv[2]), sys.argv[3]
+docs = {}
+
+class Collect(TreeVisitor):
+    def visit_Node(self, node):
+        self.visitchildren(node)
+    def visit_DefNode(self, node):
+        d = node.entry.doc
+        docs[str(node.name)] = None if d is None else str(d)
+
+orig = Pipeline.create_pyx_pipeline
+def truncated(context, options, result, *a, **k):
+    p = orig(context, options, result, *a, **k)
+    idx = max(i for i, s in enumerate(p) if isinstance(s, EmbedSignature))
+    def collect(tree):
+        Collect().visit(tree)
+        return tree
+    return p[:idx + 1] + [collect]
+Pipeline.create_pyx_pipeline = truncated
+opts = Main.CompilationOptions(Main.default_options, compiler_directives=directives, language_level=3)
+res = Main.compile(path, opts)
+with open(outf, "w") as f:
+    json.dump({"docs": docs, "errors": getattr(res, "num_errors", None)}, f)
+'''
